@@ -278,7 +278,7 @@ CHECKS = {
         text="For every public operation of every tag class (T1 static/"
              "dynamic/Topaz, T2 generic/UL-C/NTAG, T3 generic/FeliCa "
              "Lite/Lite-S/Standard, T4 A/B) a fault-free run fixes the command "
-             "sequence; then at every position a burst of 1..3 (thorough 1..4) "
+             "sequence; then at every position a burst of 1..4 (thorough 1..6) "
              "timeouts, transmission or protocol errors is injected, as lost "
              "command and as lost response; bursts within the retry budget "
              "must be absorbed with the same result and memory, larger ones "
